@@ -5,6 +5,7 @@ package c41
 import (
 	"fmt"
 	"math/big"
+	"regexp"
 	"strconv"
 	"strings"
 	"unicode"
@@ -153,10 +154,17 @@ type desc struct {
 type gen struct {
 	c *reg.Ctx
 	e *elv
+	// via, when set, marks cases that are steps of a str: call sequence
+	via string
 }
 
 func (g *gen) emit(op, class, coq, in, obs, code string, nontrivial bool) {
-	g.c.Count(op + "/" + class)
+	bucket := op + "/" + class
+	if g.via != "" {
+		bucket = "strseq:" + bucket
+		code = g.via + " " + code
+	}
+	g.c.Count(bucket)
 	g.c.Emit(reg.Case{Coq: coq, Desc: desc{op, in, obs, code}, Key: op + "|" + in,
 		Nontrivial: nontrivial, Class: class})
 }
@@ -720,6 +728,189 @@ func isLitPattern(p string) bool {
 	return true
 }
 
+// ---------------------------------------------------------------- sequences of re: calls
+
+type rcall struct {
+	Op      string // find | split | replace-lit | replace-tpl | match
+	P, T    string
+	Max     int
+	Repl    string
+	Longest bool
+	Posix   bool
+}
+
+// freshMatches asks a regexp compiled anew, with exactly the requested flags,
+// for all matches (independent of anything pkg/mods/re keeps).
+func freshMatches(p string, posix, longest bool, t string) ([]match, bool) {
+	var re *regexp.Regexp
+	var err error
+	if posix {
+		re, err = regexp.CompilePOSIX(p)
+	} else {
+		re, err = regexp.Compile(p)
+	}
+	if err != nil {
+		return nil, false
+	}
+	if longest {
+		re.Longest()
+	}
+	var ms []match
+	for _, ix := range re.FindAllSubmatchIndex([]byte(t), -1) {
+		m := match{S: ix[0], E: ix[1], Text: t[ix[0]:ix[1]]}
+		for i := 0; i+1 < len(ix); i += 2 {
+			m.Groups = append(m.Groups, [2]int{ix[i], ix[i+1]})
+		}
+		ms = append(ms, m)
+	}
+	return ms, true
+}
+
+var ropName = map[string]string{"find": "OpFind", "split": "OpSplit", "replace-lit": "OpReplaceLit",
+	"replace-tpl": "OpReplaceTpl", "match": "OpMatch"}
+
+// reSeq evaluates the calls one after the other on the one Evaler of this
+// process and emits the whole sequence as one case.
+func (g *gen) reSeq(calls []rcall) {
+	e := g.e
+	var steps, ins, obss []string
+	flagSets := map[string]map[string]bool{}
+	anyPosix := false
+	for _, c := range calls {
+		if c.Op == "match" {
+			c.Longest = false // re:match has no such option
+		}
+		e.a.Set(c.P)
+		e.s.Set(c.T)
+		e.n.Set(strconv.Itoa(c.Max))
+		e.f.Set(c.Repl)
+		opts := ""
+		if c.Longest {
+			opts += " &longest=$true"
+		}
+		if c.Posix {
+			opts += " &posix=$true"
+			anyPosix = true
+		}
+		var code string
+		switch c.Op {
+		case "find":
+			code = "re:find &max=$n" + opts + " $a $s"
+		case "split":
+			code = "re:split &max=$n" + opts + " $a $s"
+		case "replace-lit":
+			code = "re:replace &literal=$true" + opts + " $a $f $s"
+		case "replace-tpl":
+			code = "re:replace" + opts + " $a $f $s"
+		default:
+			code = "re:match" + opts + " $a $s"
+		}
+		out, kind, msg := e.run(code)
+		obs, obsText := "XOther", kind+" "+msg
+		switch {
+		case strings.HasPrefix(kind, "Other:*syntax.Error"):
+			obs, obsText = "XFail", "does not compile"
+		case kind != "":
+		case c.Op == "find":
+			if ms, ok := matches(out); ok {
+				obs, obsText = App("XMatches", matchList(ms)), fmt.Sprint(positions(ms))
+			}
+		case c.Op == "split":
+			if ps, ok := strs(out); ok {
+				obs, obsText = App("XPieces", strList(ps)), fmt.Sprintf("%q", ps)
+			}
+		case c.Op == "match":
+			if len(out) == 1 {
+				if b, ok := out[0].(bool); ok {
+					obs, obsText = App("XBool", Bool(b)), fmt.Sprint(b)
+				}
+			}
+		default:
+			if r, ok := strs(out); ok && len(r) == 1 {
+				obs, obsText = App("XString", Str(r[0])), fmt.Sprintf("%q", r[0])
+			}
+		}
+		fresh, freshText := "(@None (list rmatch))", "does not compile"
+		if ms, ok := freshMatches(c.P, c.Posix, c.Longest, c.T); ok {
+			fresh, freshText = Some(matchList(ms)), fmt.Sprint(positions(ms))
+		}
+		steps = append(steps, App("mkStep",
+			App("mkCall", ropName[c.Op], Str(c.P), Str(c.T), Z(int64(c.Max)), Str(c.Repl), Bool(c.Longest), Bool(c.Posix)),
+			fresh, obs))
+		ins = append(ins, fmt.Sprintf("%s p=%q t=%q max=%d repl=%q longest=%v posix=%v", c.Op, c.P, c.T, c.Max, c.Repl, c.Longest, c.Posix))
+		obss = append(obss, fmt.Sprintf("%s (fresh engine: %s)", obsText, freshText))
+		if flagSets[c.P] == nil {
+			flagSets[c.P] = map[string]bool{}
+		}
+		flagSets[c.P][fmt.Sprint(c.Longest, c.Posix)] = true
+	}
+	nontrivial := false
+	for _, fs := range flagSets {
+		if len(fs) > 1 {
+			nontrivial = true
+		}
+	}
+	class := "re-seq"
+	if anyPosix {
+		class = "re-seq-posix"
+	}
+	g.emit("re-seq", class, App("CSeq", List(steps)), strings.Join(ins, " ; "), strings.Join(obss, " ; "),
+		"one Evaler, calls in this order", nontrivial)
+}
+
+// patterns for which leftmost-first and leftmost-longest differ on the subjects below
+var seqPatterns = []string{"a|ab", "(a|ab)(c|bcd)", "x*|xy", "a|ab|abc", "(a|ab)(c|bcd)?", "b|bc|bcd", "(?:a|ab)+",
+	"a+?", "(a+?)(b*)", "a*?b?", "(a*)(ab)*", "ab|a", "x|xy|xyz", "(x|xy)(y|z)?", "(a|ab)(b*)", "a??b"}
+var seqSubjects = []string{"ab", "abcd", "xy", "xxy", "abab", "abcbcd", "aab", "xyz", "abc", "", "aaab", "abbcd xy", "abbb"}
+
+func (g *gen) randomReSeq() {
+	r := g.c.Rand
+	pool := []string{g.pick(seqPatterns), g.pick(seqPatterns)}
+	if r.Intn(3) == 0 {
+		pool = append(pool, g.regex(1))
+	}
+	n := 3 + r.Intn(6)
+	calls := make([]rcall, n)
+	for i := range calls {
+		p := pool[0]
+		if r.Intn(5) < 2 {
+			p = g.pick(pool)
+		}
+		t := g.pick(seqSubjects)
+		if r.Intn(6) == 0 {
+			t = g.word([]string{"a", "b", "c", "d", "x", "y", " "}, 8)
+		}
+		calls[i] = rcall{Op: g.pick([]string{"find", "find", "split", "replace-lit", "replace-tpl", "match"}),
+			P: p, T: t, Max: g.max(), Repl: g.pick([]string{"-", "<$0>", "$1", "[$1|$2]", "", "$$"}),
+			Longest: r.Intn(5) < 2, Posix: r.Intn(7) == 0}
+	}
+	g.reSeq(calls)
+}
+
+// a short sequence of str: calls on recurring subjects and separators; every
+// step is judged on its own against the model (a function of its arguments)
+func (g *gen) randomStrSeq(id int) {
+	r := g.c.Rand
+	al := g.alphabet()
+	subj := []string{g.word(al, 8), g.word(al, 8)}
+	sep := []string{g.word(al, 2), g.pick(al)}
+	n := 3 + r.Intn(4)
+	for i := 0; i < n; i++ {
+		g.via = fmt.Sprintf("str-seq %d step %d/%d", id, i+1, n)
+		switch r.Intn(5) {
+		case 0, 1:
+			g.split(g.max(), g.pick(sep), g.pick(subj))
+		case 2:
+			g.replace(g.max(), g.pick(sep), g.pick(sep), g.pick(subj))
+		case 3:
+			g.trim(g.pick(subj), g.pick(sep))
+		default:
+			g.affix(g.pick(subj), g.pick(sep))
+		}
+	}
+	g.via = ""
+}
+
 // ---------------------------------------------------------------- driver
 
 func run(c *reg.Ctx) {
@@ -782,10 +973,28 @@ func run(c *reg.Ctx) {
 		g.regexCase(x[0], x[1], 2, "-", "<$0>", true)
 	}
 
+	// sequences: the same pattern with and without &longest / &posix, in both orders
+	for _, x := range [][2]string{{"a|ab", "ab"}, {"(a|ab)(c|bcd)", "abcd"}, {"x*|xy", "xy"}, {"a+?", "aaa"}} {
+		for _, op := range []string{"find", "split", "replace-tpl", "match"} {
+			g.reSeq([]rcall{
+				{Op: op, P: x[0], T: x[1], Max: -1, Repl: "<$0>"},
+				{Op: "find", P: x[0], T: x[1], Max: -1, Longest: true},
+				{Op: op, P: x[0], T: x[1], Max: -1, Repl: "<$0>"},
+				{Op: "split", P: x[0], T: x[1] + " " + x[1], Max: 2, Posix: true},
+				{Op: op, P: x[0], T: x[1] + x[1], Max: -1, Repl: "<$0>"},
+				{Op: "replace-lit", P: x[0], T: x[1], Max: -1, Repl: "$1"},
+			})
+		}
+	}
+
 	// ---- random cases, about c.N of them
 	for i := 0; i < c.N; i++ {
 		al := g.alphabet()
-		switch k := r.Intn(100); {
+		switch k := r.Intn(112); {
+		case k >= 110:
+			g.randomStrSeq(i)
+		case k >= 100:
+			g.randomReSeq()
 		case k < 12: // split
 			s := g.word(al, 10)
 			sep := g.word(al, 2)
